@@ -416,7 +416,10 @@ class C03(ClientProp):
                 {"module": "MC_ClientShared", "expect_violation": "SessionOfOwnLogin", "workers": 2},
                 # a call abandoned while it waits (cancellation, timeout) and answered late: the next operation reads that answer
                 {"module": "MC_ClientAbandon", "expect_violation": "SessionOfThisLogin", "workers": 2},
-                {"module": "MC_ClientAbandon", "cfg": "MC_ClientAbandonSilent.cfg", "workers": 2}] + MODEL_RUNS[:1] + ctx.pick([], [
+                {"module": "MC_ClientAbandon", "cfg": "MC_ClientAbandonSilent.cfg", "workers": 2},
+                # the library itself gives up on a slow device: keeping the connection violates C03, hanging up does not
+                {"module": "MC_ClientAbandon", "cfg": "MC_ClientTimeoutKeeps.cfg", "expect_violation": "SessionOfThisLogin", "workers": 2},
+                {"module": "MC_ClientAbandon", "cfg": "MC_ClientTimeoutHangsUp.cfg", "workers": 2}] + MODEL_RUNS[:1] + ctx.pick([], [
                     # two operations per client: too large to exhaust (> 30 min on 16 cores), explored by random walks
                     {"module": "MC_Client", "cfg": "MC_ClientTwoOps.cfg", "simulate": "num=40000", "depth": 40, "timeout": 900, "workers": 8},
                     {"module": "MC_Client", "cfg": "MC_ClientLive.cfg", "timeout": 1200, "workers": 8}])
